@@ -636,7 +636,11 @@ def rules(tier):
             # C14-ca: program_info['skip_case'] = args.skip_brute in the option parser
             ('C14.R16', _shared_rule('plumbing', 'option_round_trip')),
             # C20-ca: an option value replaced by a function of itself after parsing
-            ('C14.R17', _shared_rule('plumbing', 'options_not_rewritten'))]
+            ('C14.R17', _shared_rule('plumbing', 'options_not_rewritten')),
+            # C14-da: skip_case read from [session_info] with fallback=False - an --all_lower session resumes with case mangling
+            ('C14.R18', _shared_rule('c08', 'r5_sav_keys')),
+            # C14-db: under --all_lower the restore walk stops at every capitalisation position
+            ('C14.R19', _shared_rule('c08', 'r24_restore_visits_every_position'))]
 
 
 META = {
